@@ -75,7 +75,17 @@ def oracle(ctx, trig, n_docs, per_rule={}):
                     chars.add(ctx.rng.choice(cand))
         else:
             chars = trig.get(P) or set(EXTRA_TRIGGERS[P])
-        doc = strip_chars(gen.md_nested(ctx.rng) if ctx.rng.random() < 0.25 else gen.md_any(ctx.rng, 8), chars)
+        if P == "speedup" and ctx.rng.random() < 0.5:
+            # speedup has no trigger characters: the documents C09 uses for its fast paths belong here too (line ends with blanks / tabs,
+            # abbreviation keys that the text rule cuts into pieces, URLs, tables after plain lines)
+            import importlib
+            doc = importlib.import_module("props.c09").docs(ctx, 1)[0]
+            import re as _re
+            keys = _re.findall(r"^ {0,3}\*\[([^\]\n]+)\]:", doc, _re.M)
+            if any(a != b and b.startswith(a) and keys.index(b) < keys.index(a) for a in keys for b in keys):
+                doc = "plain words\n"        # (the abbr prefix-key finding is C09's known finding; not re-reported here)
+        else:
+            doc = strip_chars(gen.md_nested(ctx.rng) if ctx.rng.random() < 0.25 else gen.md_any(ctx.rng, 8), chars)
         if P == "rst":
             doc = doc.replace("..", "")
         try:
